@@ -372,24 +372,78 @@ func (capLogger) Errorf(format string, params ...interface{}) {
 
 // census counts the goroutines that are inside the package under test.
 func census() (int, string) {
-	buf := make([]byte, 1<<20)
-	for {
-		n := runtime.Stack(buf, true)
-		if n < len(buf) {
-			buf = buf[:n]
-			break
-		}
-		buf = make([]byte, 2*len(buf))
-	}
 	cnt := 0
 	var keep []string
-	for _, blk := range strings.Split(string(buf), "\n\n") {
+	for _, blk := range strings.Split(stacks(), "\n\n") {
 		if strings.Contains(blk, "github.com/btcsuite/btcd/connmgr.") {
 			cnt++
 			keep = append(keep, blk)
 		}
 	}
 	return cnt, strings.Join(keep, "\n\n")
+}
+
+func stacks() string {
+	buf := make([]byte, 1<<18)
+	for {
+		n := runtime.Stack(buf, true)
+		if n < len(buf) {
+			return string(buf[:n])
+		}
+		buf = make([]byte, 2*len(buf))
+	}
+}
+
+// goroutine wait states in which nothing happens until somebody else acts
+var blockedStates = map[string]bool{"chan receive": true, "chan send": true, "select": true, "semacquire": true,
+	"sync.WaitGroup.Wait": true, "chan receive (nil chan)": true, "select (no cases)": true}
+
+// allBlocked looks at one stop-the-world goroutine dump: is every goroutine
+// that is inside the package under test, was created by it, or belongs to
+// this driver (other than the caller) blocked?
+func allBlocked() bool {
+	for _, blk := range strings.Split(stacks(), "\n\n") {
+		if !strings.Contains(blk, "github.com/btcsuite/btcd/connmgr.") && !strings.Contains(blk, "harness/internal/connmgr.") {
+			continue
+		}
+		if strings.Contains(blk, "harness/internal/connmgr.allBlocked") {
+			continue
+		}
+		i, j := strings.Index(blk, "["), strings.Index(blk, "]")
+		if i < 0 || j < i {
+			return false
+		}
+		st := blk[i+1 : j]
+		if k := strings.Index(st, ","); k >= 0 {
+			st = st[:k]
+		}
+		if !blockedStates[st] {
+			return false
+		}
+	}
+	return true
+}
+
+// quiet waits (for a bounded time) for a moment at which every goroutine of
+// the manager is blocked and records it.  The recorder is locked around the
+// snapshot: no event can slip in between the snapshot and the record.
+func (r *run) quiet(maxWait time.Duration) bool {
+	deadline := time.Now().Add(maxWait)
+	for {
+		r.mu.Lock()
+		ok := allBlocked()
+		if ok {
+			r.events = append(r.events, Event{K: "quiet"})
+		}
+		r.mu.Unlock()
+		if ok {
+			return true
+		}
+		if time.Now().After(deadline) {
+			return false
+		}
+		time.Sleep(150 * time.Microsecond)
+	}
 }
 
 // user calls --------------------------------------------------------------------------
@@ -676,6 +730,14 @@ func (r *run) runRandom() {
 	sc := r.sc
 	maxDisc, maxRem, maxIn := 3, 2, 3
 	for step := 0; step < sc.Steps; step++ {
+		r.mu.Lock()
+		busy := r.opsOut
+		r.mu.Unlock()
+		if busy >= 2 || r.rng.Intn(10) < 6 {
+			// keep the number of goroutines in flight at once (and with it the
+			// number of schedules that explain the trace) small
+			r.quiet(20 * time.Millisecond)
+		}
 		r.jitter()
 		type cand struct {
 			w int
